@@ -119,6 +119,16 @@ def hostile_binary(rng):
     return docs
 
 
+def refuted(ctx, stage):
+    """fail fast: once unlisted property failures exist, the later (slower) stages add nothing to the verdict, and on a
+    tree where calls hang they would take the check past any sensible time limit"""
+    known = load_known().get(ctx.prop, {})
+    n = sum(1 for f in ctx.failures if f.kind == "property" and not (f.klass and f.klass in known))
+    if n:
+        ctx.notes.append("stopped before stage '%s': %d property failures already found" % (stage, n))
+    return n > 0
+
+
 def run(ctx):
     rng = ctx.rng
     bins = hostile_binary(rng)
@@ -154,6 +164,8 @@ def run(ctx):
     lines = ["btrav 0 " + iongen.hx(b) for b in bins]
     mo, go = ctx.correspond("K2-binreader-hostile", lines, canon=binlib.canon_trace_full, nontrivial=lambda ln, m: True,
                             oracle=bad_outcome, classify=classify_case)
+    if refuted(ctx, "entry points"):
+        return
     # 2. the other entry points, real code only
     others = []
     def some(n):
@@ -201,6 +213,8 @@ def run(ctx):
             nbad += 1
             ctx.fail("property", "C06-entrypoints", ln[:4000], why, classify_case(ln, None, g))
     ctx.count("C06-entrypoints", len(others), others[:2000], bad=nbad, sample=others[1][:120])
+    if refuted(ctx, "memory"):
+        return
     # 3. memory: allocation must follow the input size
     mem = ["memtrav " + iongen.hx(b) for b in rng.sample(bins[:n_hostile], min(n_hostile, 150)) + bins[n_hostile:n_hostile + 120] + [list(t) for t in texts]]
     # one process per case: heap growth (HeapSys) of a fresh process is the peak the case needed
@@ -217,6 +231,8 @@ def run(ctx):
             if a > 256 * n + (96 << 20):
                 ctx.fail("property", "C06-memory", ln[:4000], "heap grew by %d bytes for %d bytes of input" % (a, n), classify_case(ln, None, g))
     ctx.count("C06-memory", len(mem), [], worst_alloc_per_input_byte=round(worst, 1))
+    if refuted(ctx, "deep nesting"):
+        return
     # deep text nesting through Decoder (recursion per level)
     deep = ["decany 0 " + iongen.hx(b"[" * n) for n in (10000, 6000000)]
     gd = run_go(deep, per_case_timeout=120, parallel=False)
